@@ -22,7 +22,10 @@ Import ListNotations.
 Section Editor.
 Variable T : Type.
 Variable E : Type.
-Variable apply_opt : T -> list E -> option T * T.   (* (Some result | None = error, data as ApplyEdits left it) *)
+Variable apply_opt : nat -> T -> list E -> option T * T.
+(* [apply_opt n t es]: the n-th ApplyEdits call of the statement (1 = StatementComplete, 2 = Close) on data [t] with the
+   pending edits [es]: (Some result | None = error, data as ApplyEdits left it).  The call number lets a one-shot
+   storage fault (memory.VerifC15ResetApplyFault n) be expressed. *)
 
 (* the outcome of the k-th row-edit call of the statement *)
 Inductive call := CGood (e : E) | CBad (ignorable : bool).
@@ -52,7 +55,7 @@ Definition discard_changes (ed : editor) (ignorable : bool) : editor :=
 (* StatementComplete returns nil in both cases.  The accumulator edits the session's TableData object in place
    (sess.editAccumulator is built over sess.tableData), so a failed ApplyEdits is visible as it was left. *)
 Definition statement_complete (ed : editor) : editor :=
-  match apply_opt (edited ed) (acc ed) with
+  match apply_opt 1 (edited ed) (acc ed) with
   | (Some t, _) => {| edited := t; initial := initial ed; acc := []; discard := discard ed; published := t |}
   | (None, t) => {| edited := t; initial := initial ed; acc := acc ed; discard := discard ed; published := t |}
   end.
@@ -61,7 +64,7 @@ Definition statement_complete (ed : editor) : editor :=
 Definition close_editor (ed : editor) : bool * editor :=
   if discard ed
   then (false, {| edited := edited ed; initial := initial ed; acc := acc ed; discard := true; published := initial ed |})
-  else match apply_opt (edited ed) (acc ed) with
+  else match apply_opt 2 (edited ed) (acc ed) with
        | (Some t, _) => (false, {| edited := t; initial := initial ed; acc := []; discard := false; published := t |})
        | (None, t) => (true, {| edited := t; initial := initial ed; acc := acc ed; discard := false; published := t |})
        end.
